@@ -9,10 +9,14 @@
 //! router_states / router_info, the gate / DirectLink path into the RIB unit,
 //! the HTTP API.
 //!   C k | I k | T k | S k i | U k i e | D k i | R k i af a ps wf ws | E k i f |
-//!   B k i | X k | Q af p | M k | L (reload the config with another listen port)
+//!   B k i | X k | Q af p | M k |
+//!   H [v] | L [v]  reload the configuration (what SIGHUP does), L with another listen port; v selects a
+//!                  variant of the settings (router_id_template of the bmp unit: 0 `{sys_name}`, 1 `a{sys_name}`, 2 `b{sys_name}`)
+//!   V k            which variant's router-id template labels router k's series in GET /metrics: t:<v>
+//!   G k            how many different ingress ids router k has been given so far: g:<n>
 //! Per op one token (`-` for the non-observing ones); M prints two:
 //!   m:<as pipe>|-   n:<bmp_num_connected_routers>,<accepted>,<lost>
-use crate::engines::pipe::{eor_bytes, first_hop_value, malformed_update, metrics_vec, pph, prefix_str, update_bytes, POOL};
+use crate::engines::pipe::{eor_bytes, first_hop_value, malformed_update, metrics_vec_label, pph, prefix_str, update_bytes, POOL};
 use crate::util::ops;
 use rotonda::bgp::encode as enc;
 use rotonda::config::{Config, ConfigFile, Source};
@@ -23,7 +27,11 @@ use std::net::{Ipv4Addr, SocketAddr, SocketAddrV4, TcpListener, TcpStream};
 use std::time::{Duration, Instant};
 
 const UNIT: &str = "bmp-in";
-const STALL_MS: u64 = 4000;
+const STALL_MS: u64 = 3000;
+const TEMPLATES: [&str; 3] = ["{sys_name}", "a{sys_name}", "b{sys_name}"];
+
+/// the router id (= label of the router's series) the unit derives from a template: format_source_id puts the ingress id for {sys_name}
+fn label_of(v: usize, rid: u32) -> String { TEMPLATES[v].replace("{sys_name}", &rid.to_string()) }
 
 fn debug() -> bool { std::env::var("VH_DEBUG").is_ok() }
 
@@ -93,6 +101,8 @@ struct Conn {
     stream: TcpStream,
     written: u64,
     rid: Option<u32>,
+    counts: Vec<u64>,       // messages counted for this connection per template variant of the router id
+    shown: Option<usize>,   // the variant under which the latest message was counted
 }
 
 struct World {
@@ -106,15 +116,18 @@ struct World {
     lost: u64,
     binds: u64,
     reloaded: bool,
+    variant: usize,
+    ids_of: BTreeMap<u32, Vec<u32>>,  // router key -> the different ingress ids it has been given
     rids: BTreeMap<u32, u32>,        // router ingress id -> router key k (every id ever seen for k)
     notes: Vec<(u32, usize)>,        // (k, pool index): a Peer Up of that wire identity was taken by the session
     stalled: Option<String>,
 }
 
-fn config_text(bmp_port: u16, http_port: u16) -> String {
+fn config_text(bmp_port: u16, http_port: u16, variant: usize) -> String {
+    let tpl = TEMPLATES[variant];
     format!(
         "http_listen = [\"127.0.0.1:{http_port}\"]\nlog_level = \"error\"\nlog_target = \"stderr\"\n\n\
-         [units.{UNIT}]\ntype = \"bmp-tcp-in\"\nlisten = \"127.0.0.1:{bmp_port}\"\n\n\
+         [units.{UNIT}]\ntype = \"bmp-tcp-in\"\nlisten = \"127.0.0.1:{bmp_port}\"\nrouter_id_template = \"{tpl}\"\n\n\
          [units.rib]\ntype = \"rib\"\nsources = [\"{UNIT}\"]\n\n\
          [targets.null]\ntype = \"null-out\"\nsources = [\"rib\"]\n"
     )
@@ -128,7 +141,7 @@ impl World {
         let mgr = {
             let _g = rt.enter();
             let mut mgr = Manager::new();
-            let file = ConfigFile::new(config_text(ports[0], ports[1]).into_bytes(), Source::default()).expect("config file");
+            let file = ConfigFile::new(config_text(ports[0], ports[1], 0).into_bytes(), Source::default()).expect("config file");
             let (_src, mut config) = match Config::from_config_file(file, &mut mgr) { Ok(x) => x, Err(_) => panic!("config rejected") };
             if config.http.run(mgr.metrics(), mgr.http_resources()).is_err() { panic!("http server did not start"); }
             mgr.spawn(&mut config);
@@ -136,7 +149,7 @@ impl World {
         };
         let mut w = World {
             rt: Some(rt), mgr, bmp_port: ports[0], http_port: ports[1], spare_ports: ports[2..].to_vec(),
-            conns: BTreeMap::new(), accepted: 0, lost: 0, binds: 1, reloaded: false, rids: BTreeMap::new(), notes: vec![], stalled: None,
+            conns: BTreeMap::new(), accepted: 0, lost: 0, binds: 1, reloaded: false, variant: 0, ids_of: BTreeMap::new(), rids: BTreeMap::new(), notes: vec![], stalled: None,
         };
         // the pipeline is up when the bmp-tcp-in unit has bound its listener (units start together, after their waitpoint)
         w.wait_metrics("listener bound", |t| metric_sum(t, "bmp_tcp_in_listener_bound_count_total", &[("component", UNIT)]) == Some(1));
@@ -159,7 +172,7 @@ impl World {
         loop {
             let text = self.metrics();
             if f(&text) { return text; }
-            if t0.elapsed() > Duration::from_millis(STALL_MS) {
+            if t0.elapsed() > Duration::from_millis(if self.stalled.is_some() { 50 } else { STALL_MS }) {
                 if debug() { eprintln!("STALL {what}\n{text}"); }
                 if self.stalled.is_none() { self.stalled = Some(what.to_string()); }
                 return text;
@@ -217,7 +230,7 @@ impl World {
         let t0 = Instant::now();
         loop {
             if self.routers_listed() == Some(want) { return; }
-            if t0.elapsed() > Duration::from_millis(STALL_MS) {
+            if t0.elapsed() > Duration::from_millis(if self.stalled.is_some() { 50 } else { STALL_MS }) {
                 if self.stalled.is_none() { self.stalled = Some(format!("router list does not show {want} routers")); }
                 return;
             }
@@ -254,8 +267,12 @@ impl World {
         let others: Vec<u32> = self.conns.values().filter_map(|c| c.rid).collect();
         let fresh: Vec<u32> = self.listed_ids().into_iter().filter(|i| !others.contains(i)).collect();
         let rid = if fresh.len() == 1 { Some(fresh[0]) } else { None };
-        if let Some(r) = rid { self.rids.insert(r, k); }
-        self.conns.insert(k, Conn { stream, written: 0, rid });
+        if let Some(r) = rid {
+            self.rids.insert(r, k);
+            let ids = self.ids_of.entry(k).or_default();
+            if !ids.contains(&r) { ids.push(r); }
+        }
+        self.conns.insert(k, Conn { stream, written: 0, rid, counts: vec![0; TEMPLATES.len()], shown: None });
         if self.reloaded {
             // nothing says that a silent connection is being served; after a reload give the unit a moment to drop it
             let t0 = Instant::now();
@@ -268,8 +285,26 @@ impl World {
         self.barrier();
     }
 
-    fn up_peers(text: &str, rid: Option<u32>) -> u64 {
-        match rid { Some(r) => metric_sum(text, "bmp_state_num_up_peers_total", &[("router", &r.to_string())]).unwrap_or(0), None => 0 }
+    /// messages the unit has counted for this connection, under whichever template its router id was derived from
+    fn received(text: &str, rid: Option<u32>) -> Vec<(usize, u64)> {
+        let Some(r) = rid else { return vec![] };
+        (0..TEMPLATES.len())
+            .filter_map(|v| metric_sum(text, "bmp_tcp_in_num_bmp_messages_received_total", &[("component", UNIT), ("router", &label_of(v, r))]).map(|n| (v, n)))
+            .collect()
+    }
+
+    fn label(&self, k: u32) -> Option<String> {
+        let c = self.conns.get(&k)?;
+        let r = c.rid?;
+        Some(label_of(c.shown.unwrap_or(self.variant), r))
+    }
+
+    /// router k's up-peers gauge under each template variant of its router id
+    fn up_peers(&self, text: &str, k: u32) -> Vec<u64> {
+        let rid = self.conns.get(&k).and_then(|c| c.rid);
+        (0..TEMPLATES.len())
+            .map(|v| match rid { Some(r) => metric_sum(text, "bmp_state_num_up_peers_total", &[("router", &label_of(v, r))]).unwrap_or(0), None => 0 })
+            .collect()
     }
 
     /// writes one BMP message on router k's connection and waits until it has been processed
@@ -279,12 +314,18 @@ impl World {
         let _ = c.stream.write_all(bytes);
         c.written += 1;
         let (want, rid) = (c.written, c.rid);
-        let label = rid.map(|r| r.to_string()).unwrap_or_else(|| "?".into());
         let lost = self.lost;
         let text = self.wait_metrics("message received", |t| {
-            metric_sum(t, "bmp_tcp_in_num_bmp_messages_received_total", &[("component", UNIT), ("router", &label)]) == Some(want)
+            World::received(t, rid).iter().map(|x| x.1).sum::<u64>() == want
                 || metric_sum(t, "bmp_tcp_in_connection_lost_count_total", &[("component", UNIT)]).unwrap_or(0) > lost
         });
+        let seen = World::received(&text, rid);
+        if let Some(c) = self.conns.get_mut(&k) {
+            for (v, n) in seen {
+                if n > c.counts[v] { c.shown = Some(v); }
+                c.counts[v] = n;
+            }
+        }
         self.reap(&text);
         self.barrier();
         self.metrics()
@@ -301,8 +342,9 @@ impl World {
     }
 
     /// SIGHUP-style reload with another listen address: the unit re-binds its listener
-    fn reload(&mut self, rebind: bool) {
+    fn reload(&mut self, rebind: bool, variant: Option<usize>) {
         self.reloaded = true;
+        if let Some(v) = variant { self.variant = v.min(TEMPLATES.len() - 1); }
         if rebind {
             let Some(p) = self.spare_ports.pop() else { return };
             let old = std::mem::replace(&mut self.bmp_port, p);
@@ -310,7 +352,7 @@ impl World {
         }
         {
             let _g = self.rt.as_ref().unwrap().enter();
-            let file = ConfigFile::new(config_text(self.bmp_port, self.http_port).into_bytes(), Source::default()).expect("config file");
+            let file = ConfigFile::new(config_text(self.bmp_port, self.http_port, self.variant).into_bytes(), Source::default()).expect("config file");
             let (_src, mut config) = match Config::from_config_file(file, &mut self.mgr) { Ok(x) => x, Err(_) => panic!("config rejected") };
             self.mgr.spawn(&mut config);
         }
@@ -391,12 +433,14 @@ pub fn run_case(line: &str) -> String {
                     _ => enc::mk_raw_route_monitoring_msg(&pph(n(2) as usize), malformed_update()),
                 };
                 if op[0] == "U" {
-                    let rid = w.conns[&k].rid;
-                    let before = World::up_peers(&w.metrics(), rid);
-                    let after = World::up_peers(&w.send(k, &bytes), rid);
-                    // the router's up-peers gauge went up: the session took the Peer Up
+                    let before = w.up_peers(&w.metrics(), k);
+                    let text = w.send(k, &bytes);
+                    let after = w.up_peers(&text, k);
+                    // the router's up-peers gauge moved: the session took the Peer Up
                     let i = n(2) as usize;
-                    if after > before && !w.notes.contains(&(k, i)) { w.notes.push((k, i)); }
+                    // (moved, not grew: after a change of the template the gauge of the new label starts at 0 and a Peer Down wraps it)
+                    let went_up = before.iter().zip(after.iter()).any(|(b, a)| a != b);
+                    if went_up && !w.notes.contains(&(k, i)) { w.notes.push((k, i)); }
                 } else {
                     w.send(k, &bytes);
                 }
@@ -406,17 +450,34 @@ pub fn run_case(line: &str) -> String {
                 if w.conns.contains_key(&k) { w.disconnect(k); }
                 out.push("-".into());
             }
-            "L" => { w.reload(true); out.push("-".into()); }
-            "H" => { w.reload(false); out.push("-".into()); }
+            "L" | "H" => {
+                w.reload(op[0] == "L", op.get(1).and_then(|x| x.parse().ok()));
+                out.push("-".into());
+            }
+            "V" => {
+                let k = n(1);
+                out.push(match w.conns.get(&k) {
+                    None => "-".into(),
+                    Some(c) => match c.shown { Some(v) => format!("t:{v}"), None => "t:-".into() },
+                });
+            }
+            "G" => {
+                let k = n(1);
+                out.push(match w.conns.get(&k) {
+                    None => "-".into(),
+                    Some(c) if c.rid.is_none() => "g:?".into(),
+                    Some(_) => format!("g:{}", w.ids_of.get(&k).map(|v| v.len()).unwrap_or(0)),
+                });
+            }
             "O" | "A" | "Z" => out.push("-".into()),
             "Q" => out.push(w.query(n(1), n(2))),
             "M" => {
                 let k = n(1);
                 let text = w.metrics();
-                match w.conns.get(&k).map(|c| c.rid) {
-                    None => out.push("-".into()),
-                    Some(None) => out.push("m:?".into()),
-                    Some(Some(rid)) => out.push(format!("m:{}", metrics_vec(&text, rid))),
+                match (w.conns.contains_key(&k), w.label(k)) {
+                    (false, _) => out.push("-".into()),
+                    (true, None) => out.push("m:?".into()),
+                    (true, Some(l)) => out.push(format!("m:{}", metrics_vec_label(&text, &l))),
                 }
                 let g = |name: &str| metric_sum(&text, name, &[("component", UNIT)]).map(|v| v.to_string()).unwrap_or_else(|| "?".into());
                 out.push(format!("n:{},{},{}", g("bmp_num_connected_routers_total"), g("bmp_tcp_in_connection_accepted_count_total"), g("bmp_tcp_in_connection_lost_count_total")));
@@ -444,8 +505,7 @@ pub fn special(name: &str, args: &[String]) -> bool {
                 "U" => { w.send(n(1), &enc::mk_peer_up_notification_msg(&pph(n(2) as usize), "10.0.0.1".parse().unwrap(), 11019, 4567, 111, 222, 0, 0, vec![], n(3) == 1)); }
                 "R" => { w.send(n(1), &enc::mk_raw_route_monitoring_msg(&pph(n(2) as usize), update_bytes(n(3), n(4), op[5], n(6), op[7]))); }
                 "X" => w.disconnect(n(1)),
-                "L" => w.reload(true),
-                "H" => w.reload(false),
+                "L" | "H" => w.reload(op[0] == "L", op.get(1).and_then(|x| x.parse().ok())),
                 _ => {}
             }
         }
